@@ -360,6 +360,19 @@ def apply_malformations(case, raw, ops_info):
             else:   # decodable CBOR of the wrong shape
                 val = cbor2.dumps(5)
             asb['results'][tix][0][1] = val
+        elif kind == 'attach_payload':
+            # a non-nil payload / ciphertext slot in the COSE structure (normally nil = detached)
+            tnum = info['targets'][tix]
+            what = mal.get('what', 'original')
+            if what == 'original':
+                slot = bytes(clean[tnum][4])           # what the security source protected
+            elif what == 'current':
+                slot = bytes(block(tnum)[4])           # what the target block carries now
+            else:
+                slot = bytes(clean[tnum][4]) + b'\x00'  # neither
+            msg = cbor2.loads(asb['results'][tix][0][1])
+            msg[2] = slot
+            asb['results'][tix][0][1] = cbor2.dumps(msg)
         elif kind == 'cose_edit':
             msg = cbor2.loads(asb['results'][tix][0][1])
             if info['sec'] == 'bib':
@@ -715,9 +728,19 @@ def op_faults(case, built):
             for (idx, other) in enumerate(ops):
                 if tnum in other['targets']:
                     faults[idx].add(kind)
+        elif kind == 'attach_payload':
+            faults[mal['blk']].add('attached_payload')
         else:
             faults[mal['blk']].add(kind)
     return faults
+
+
+def lenient(case, built):
+    ''' The only oddity of the bundle is a payload attached inside a COSE structure while every target block still
+    carries what the security source protected: the property text demands neither delivery nor deletion (RFC 9052
+    allows attached payloads, the BPSec COSE context uses detached ones); either outcome must be clean. '''
+    classes = bad_classes(case, built)
+    return classes == ['attached_payload']
 
 
 def bad_classes(case, built):
@@ -740,8 +763,16 @@ def invisible_only(case, built):
 
 
 def oracle(case, built, obs):
+    if lenient(case, built):
+        as_bad = oracle_strict(case, built, obs, ['attached_payload'])
+        as_good = oracle_strict(case, built, obs, [])
+        return [] if (not as_bad or not as_good) else as_good
+    return oracle_strict(case, built, obs, None)
+
+
+def oracle_strict(case, built, obs, force_classes):
     ''' The property over the observations. :return: list of (signature, text). '''
-    classes = bad_classes(case, built)
+    classes = bad_classes(case, built) if force_classes is None else list(force_classes)
     if classes and any(mal['kind'] == 'encrypted_bib' for mal in case.get('mal', ())):
         classes = sorted(set(['encrypted_bib'] + classes))
     acts = obs['actions'] or []
@@ -857,7 +888,8 @@ OPS_MENU = [
     [dict(sec='bcb', key='E', types=[1, 7])],
 ]
 BLOCK_MALS = ['alter_target', 'alter_flags', 'unknown_ctx', 'missing_target', 'dup_param', 'dup_result', 'no_result', 'two_results',
-              'results_short', 'bad_addl', 'no_params', 'alter_source', 'wrong_result_type', 'bad_cose', 'cose_edit', 'bad_asb']
+              'results_short', 'bad_addl', 'no_params', 'alter_source', 'wrong_result_type', 'bad_cose', 'cose_edit', 'bad_asb',
+              'attach_payload', 'attach_payload']
 HOWS = {'bad_cose': ['garbage', 'empty', 'truncated', 'shape'], 'bad_asb': ['garbage', 'empty', 'truncated', 'text']}
 FLAG_SETS = [0, bpdrive.FLAG_REQ_DELETION, bpdrive.FLAG_REQ_DELIVERY,
              bpdrive.FLAG_REQ_DELETION | bpdrive.FLAG_REQ_DELIVERY | bpdrive.FLAG_REQ_RECEPTION,
@@ -903,6 +935,12 @@ def cert_cases():
             mal = dict(kind=kind) if kind == 'alter_primary' else dict(kind=kind, blk=0)
             out.append(('cert:good+' + kind, mk_case(CERT_OPS_MENU[0], [mal], accept=accept, pki=dict(variant='good', x5='x5chain'))))
             out.append(('cert:good+' + kind, mk_case(CERT_OPS_MENU[0], [mal], accept=accept, pki=dict(variant='good', x5='x5t'))))
+        for x5 in ('x5chain', 'x5t'):
+            for what in ('original', 'current', 'other'):
+                att = dict(kind='attach_payload', blk=0, what=what)
+                out.append(('cert:good+attach', mk_case(CERT_OPS_MENU[0], [att], accept=accept, pki=dict(variant='good', x5=x5))))
+                out.append(('cert:good+attach', mk_case(CERT_OPS_MENU[0], [dict(kind='alter_target', blk=0, pos=2), att], accept=accept,
+                                                        pki=dict(variant='good', x5=x5))))
     return out
 
 
@@ -927,6 +965,15 @@ def directed_cases():
                     out.append((kind, mk_case(ops, [mal], accept=accept)))
         out.append(('alter_primary', mk_case(one_bib, [dict(kind='alter_primary')], accept=accept)))
         out.append(('alter_primary', mk_case(two, [dict(kind='alter_primary')], accept=accept)))
+        # the detached-payload rule: a payload / ciphertext attached inside the COSE structure
+        for (ops, blk, tix) in ((one_bib, 0, 0), (one_bcb, 0, 0), (OPS_MENU[2], 0, 1), (two, 1, 0), (OPS_MENU[8], 1, 0), (OPS_MENU[13], 0, 1)):
+            for what in ('original', 'current', 'other'):
+                att = dict(kind='attach_payload', blk=blk, tix=tix, what=what)
+                out.append(('attach', mk_case(ops, [att], accept=accept)))                                          # target unaltered
+                for pos in (0, 3):
+                    out.append(('attach', mk_case(ops, [dict(kind='alter_target', blk=blk, tix=tix, pos=pos), att], accept=accept)))   # target altered
+            out.append(('attach', mk_case(ops, [dict(kind='alter_flags', blk=blk, tix=tix),
+                                                dict(kind='attach_payload', blk=blk, tix=tix, what='original')], accept=accept)))
         # key store contents
         for how in ('wrong', 'missing'):
             out.append((how + '_key', mk_case(one_bib, [dict(kind=how + '_key', blk=0)], keystore=dict(A=how), accept=accept)))
@@ -979,6 +1026,10 @@ def random_case(rng):
             ent = dict(kind=kind, blk=rng.randrange(len(ops)), tix=rng.randrange(2), pos=rng.randrange(64))
             if kind in HOWS:
                 ent['how'] = rng.choice(HOWS[kind])
+            if kind == 'attach_payload':
+                ent['what'] = rng.choice(['original', 'original', 'current', 'other'])
+                if rng.random() < 0.6:
+                    mal.append(dict(kind='alter_target', blk=ent['blk'], tix=ent['tix'], pos=rng.randrange(64)))
             mal.append(ent)
     # at most one edit of the ASB per block (a second one may find the structure it wants to edit gone); a block
     # whose BTSD is replaced wholesale (bad_asb) gets no other ASB edit
@@ -1032,6 +1083,13 @@ def obs_summary(obs):
     return dict(actions=obs['actions'], reason=obs['reason'], reached=obs['reached'], app_payloads=[c['payload'] for c in obs['app_calls']],
                 reports=obs['reports'], recv_exc=obs['recv_exc'], escaped=obs['escaped'],
                 verdicts=[dict((k, v) for (k, v) in ent.items()) for ent in obs['verdicts']])
+
+
+def verdict_sig(obs):
+    ''' what the contexts answered, and what became of the bundle '''
+    ver = [(ent['kind'], ent['num'], ent['targets'], [(c.get('tgt'), c.get('result', 'raised')) for c in ent['tcalls']],
+            ent.get('result', 'raised:' + str(ent.get('raised')))) for ent in obs['verdicts']]
+    return (ver, obs['actions'], obs['reason'], [c['payload'] for c in obs['app_calls']])
 
 
 def load_corpus():
@@ -1125,6 +1183,27 @@ def main():
                                                                             observed=obs_summary(obs)))
         for (sig, what) in oracle(case, built, obs):
             report(chk, pending, sig, '%s [%s]' % (what, tag), dict(case=case, raw_hex=built['raw'].hex(), observed=obs_summary(obs)))
+    # tie of C12_verdict_ignores_payload_slot: the same bundle without the attached payload gets the same verdicts
+    slot_bad = []
+    slot_n = 0
+    for (tag, case, built, obs, ids) in runs:
+        if not any(mal['kind'] == 'attach_payload' for mal in case['mal']):
+            continue
+        twin = dict(case, mal=[mal for mal in case['mal'] if mal['kind'] != 'attach_payload'])
+        try:
+            (_tb, tobs) = run_impl(twin)
+        except Exception as err:
+            slot_bad.append((tag, 'twin not built: %s' % err))
+            continue
+        slot_n += 1
+        if verdict_sig(obs) != verdict_sig(tobs):
+            slot_bad.append((tag, case['mal'], verdict_sig(obs), verdict_sig(tobs)))
+    chk.hist['attached_payload_twins'] = slot_n
+    chk.obligation('correspondence:verdict-independent-of-COSE-payload-slot', not slot_bad,
+                   '%d of %d bundles with an attached payload are judged differently from the same bundle with a detached one; first: %r'
+                   % (len(slot_bad), slot_n, slot_bad[:1]))
+    if slot_bad:
+        print('# payload slot: ' + repr(slot_bad[0])[:600])
     chk.obligation('generator:every-case-built', not build_errors, '; '.join('%s %s' % (t, e) for (t, _c, e) in build_errors[:3]))
 
     # tie: the BPSec steps run after the routing steps and before every application step
